@@ -314,5 +314,5 @@ def _worker(ctx, arg):
 
 
 def run(ctx):
-    per = 200 if ctx.tier == "quick" else 4000
+    per = 700 if ctx.tier == "quick" else 8000
     ctx.parallel(_worker, [(k, per) for k in range(core.NPROC)])
